@@ -738,6 +738,9 @@ def programs_access(tier):
     progs.append(Program("acu1", structs=[S("acu1", 8, [
         F("ro", T_u(1), (0, 1), access="r"), F("wo", T_u(1), (1, 1), access="w"), F("no", T_u(1), (2, 1), access=""),
         F("both", T_u(1), (3, 1), access="rw"), F("rest", T_u(4), (4, 4))], default=Default(0x05))], props=("C17", "C14", "C01", "C02")))
+    progs.append(Program("acu1n", structs=[S("acu1n", 8, [                                   # the same without default: no builder
+        F("ro", T_u(1), (0, 1), access="r"), F("wo", T_u(1), (1, 1), access="w"), F("no", T_u(1), (2, 1), access=""),
+        F("both", T_u(1), (3, 1), access="rw")])], props=("C17", "C14")))
     progs.append(Program("ac64r", structs=[S("ac64r", 64, [F("all", T_i(64), (0, 64), access="r")])], props=("C17", "C14")))
     progs.append(Program("ac8ro", structs=[S("ac8ro", 8, [
         F("a", T_u(4), (0, 4), access="r"), F("b", T_bool(), (7, 1), access="r")], default=Default(0x81))], props=("C17", "C14")))
